@@ -28,6 +28,7 @@
 #include <unistd.h>
 #include <sys/wait.h>
 #include <errno.h>
+#include <sys/time.h>
 
 /* ------------------------------------------------------------------ interposition / crash guard */
 static int g_nbvp_override = 0;
@@ -54,6 +55,16 @@ static void on_signal(int sig)
     snprintf(g_crash, sizeof(g_crash), "real code died with signal %d (%s)", sig, strsignal(sig));
     if (g_guard) siglongjmp(g_jmp, 2);
     _exit(2);
+}
+/* watchdog on CPU time (ITIMER_VIRTUAL, 100 ms ticks): a guarded section that spans 3 ticks (>= 200 ms of user CPU time; a
+ * legitimate case needs < 2 ms) is an infinite loop in the real code. Independent of machine load. */
+static volatile long g_case_serial = 0; static long g_tick_serial = -1; static int g_tick_count = 0;
+static void on_tick(int sig)
+{
+    (void)sig;
+    if (!g_guard) { g_tick_serial = -1; return; }
+    if (g_tick_serial == g_case_serial) { if (++g_tick_count >= 2) { g_tick_serial = -1; snprintf(g_crash, sizeof(g_crash), "real code did not return (>= 200 ms of CPU time inside one constructor/accessor sequence: infinite loop)"); siglongjmp(g_jmp, 4); } }
+    else { g_tick_serial = g_case_serial; g_tick_count = 0; }
 }
 
 /* ------------------------------------------------------------------ cases */
@@ -234,6 +245,11 @@ static void teardown(const case_t *c, built_t *b)
 #define FAIL(...) do { snprintf(err, SX_ERRLEN, __VA_ARGS__); return 1; } while (0)
 typedef struct { int al; size_t off; int m, n; } slot_t;
 static int g_verbose = 0;
+/* relaxations used ONLY to keep checking around a defect that is listed in known_findings.json (see classify()) */
+#define RX_NO_DKEY   1      /* do not compare data_of()->key with data_key() */
+#define RX_NO_DATA   2      /* do not call data_of / compare nb_local_tiles (vector ROW/COL: local count is wrong, data_map too small) */
+#define RX_SYM_CLIP  4      /* sym view with offset: skip the tiles the misplaced assertion rejects (global index >= mt / nt) */
+static int g_relax = 0;
 
 /* returns 0 = holds, 1 = violation (err filled). sig receives the observable outcome (owners, storage offsets, vpids). */
 static int check_views(const case_t *c, built_t *b, char *sig, size_t sigcap, int *nontrivial, char *err)
@@ -246,6 +262,7 @@ static int check_views(const case_t *c, built_t *b, char *sig, size_t sigcap, in
     for (int n = 0; n < nt; n++) for (int m = 0; m < mt; m++) {
         int t = n * mt + m, gm = m + b->goff_m, gn = n + b->goff_n; owner[t] = -1;
         if ((b->tri == 1 && gm < gn) || (b->tri == 2 && gn < gm)) continue;       /* not stored */
+        if ((g_relax & RX_SYM_CLIP) && (gm >= mt || gn >= nt)) continue;
         for (int r = 0; r < nodes; r++) {
             parsec_data_collection_t *dc = b->v[r].dc;
             uint32_t o = dc->rank_of(dc, m, n); n_calls++;
@@ -273,6 +290,11 @@ static int check_views(const case_t *c, built_t *b, char *sig, size_t sigcap, in
         so += (size_t)snprintf(sig + so, sigcap - so, "|"); if (so + 64 > sigcap) so = sigcap - 64;
         for (int n = 0; n < nt; n++) for (int m = 0; m < mt; m++) {
             int t = n * mt + m; if (owner[t] != r) continue;
+            if (g_relax & RX_NO_DATA) {
+                int32_t vp = dc->vpid_of(dc, m, n); n_calls++;
+                if (vp < 0 || vp >= c->nbvp) FAIL("vpid_of(%d,%d) on owner %d = %d, not in [0,%d)", m, n, r, vp, c->nbvp);
+                continue;
+            }
             parsec_data_t *d = dc->data_of(dc, m, n); n_calls++;
             if (!d) FAIL("data_of(%d,%d) on owner %d returned NULL", m, n, r);
             parsec_data_copy_t *cp = d->device_copies[0];
@@ -287,7 +309,7 @@ static int check_views(const case_t *c, built_t *b, char *sig, size_t sigcap, in
             int k = ns++;                                      /* insertion sort by (allocation, offset) */
             while (k > 0 && (slots[k - 1].al > ai || (slots[k - 1].al == ai && slots[k - 1].off > off))) { slots[k] = slots[k - 1]; k--; }
             slots[k].al = ai; slots[k].off = off; slots[k].m = m; slots[k].n = n;
-            if (b->check_dkey && d->key != keys[t]) { int km = -1, kn = -1; parsec_matrix_block_cyclic_key2coords(b->v[0].dc, d->key, &km, &kn);
+            if (b->check_dkey && !(g_relax & RX_NO_DKEY) && d->key != keys[t]) { int km = -1, kn = -1; parsec_matrix_block_cyclic_key2coords(b->v[0].dc, d->key, &km, &kn);
                 FAIL("data_of(%d,%d) on owner %d carries key %llu, which maps back to (%d,%d); data_key(%d,%d) is %llu", m, n, r, (unsigned long long)d->key, km, kn, m, n, (unsigned long long)keys[t]); }
             if (dc->data_of_key) { parsec_data_t *d2 = dc->data_of_key(dc, keys[t]); n_calls++;
                 if (d2 != d) FAIL("data_of_key(data_key(%d,%d)) and data_of(%d,%d) return different data on owner %d", m, n, m, n, r); }
@@ -302,6 +324,7 @@ static int check_views(const case_t *c, built_t *b, char *sig, size_t sigcap, in
             if (slots[k].al == slots[k - 1].al && slots[k - 1].off + b->tilebytes > slots[k].off)
                 FAIL("on owner %d tiles (%d,%d) and (%d,%d) overlap in local storage (byte offsets %zu and %zu, tile is %zu bytes)",
                      r, slots[k - 1].m, slots[k - 1].n, slots[k].m, slots[k].n, slots[k - 1].off, slots[k].off, b->tilebytes);
+        if (g_relax & RX_NO_DATA) continue;
         if (b->full && v->nb_local >= 0 && v->nb_local != ns)
             FAIL("rank %d owns %d tiles of the matrix but its descriptor says nb_local_tiles = %d", r, ns, v->nb_local);
         if (!b->full && v->nb_local >= 0 && ns > v->nb_local)
@@ -310,18 +333,49 @@ static int check_views(const case_t *c, built_t *b, char *sig, size_t sigcap, in
     return 0;
 }
 
-/* one point of the box; 0 ok, 1 violation (err), sig = outcome */
-static int run_case(const case_t *c, char *sig, size_t sigcap, int *nontrivial, char *err)
+/* one point of the box; 0 ok, 1 violation (err), 3 crash; sig = outcome */
+static int run_case(const case_t *c, int relax, char *sig, size_t sigcap, int *nontrivial, char *err)
 {
     static built_t b; int rc;
-    g_nbvp_override = c->nbvp;
+    g_nbvp_override = c->nbvp; g_relax = relax; g_case_serial++;
     g_guard = 1;
-    if ((rc = sigsetjmp(g_jmp, 1)) != 0) { g_guard = 0; g_nbvp_override = 0; snprintf(err, SX_ERRLEN, "%s", g_crash); return rc == 2 ? 3 : 1; }
+    if ((rc = sigsetjmp(g_jmp, 1)) != 0) { g_guard = 0; g_nbvp_override = 0; g_relax = 0; snprintf(err, SX_ERRLEN, "%s", g_crash); return rc == 2 ? 3 : rc == 4 ? 4 : 1; }
     rc = build(c, &b, err);
     if (!rc) rc = check_views(c, &b, sig, sigcap, nontrivial, err);
     if (!rc) teardown(c, &b);          /* after a violation the objects are left alone */
-    g_guard = 0; g_nbvp_override = 0;
+    g_guard = 0; g_nbvp_override = 0; g_relax = 0;
     return rc;
+}
+
+/* ---- attribution of failures to defects recorded in known_findings.json (ids passed with --known) ----
+ * A failure is attributed only if (a) the id is listed, (b) the case lies in the finding's stated input class, (c) the message is
+ * the finding's signature, and (d) the SAME case passes every other clause when re-run with exactly the matching relaxation. */
+static const struct { const char *id, *text; int relax; } findings[] = {
+    { "C20-kcyclic-data-key", "twoDBC_kcyclic_data_of builds the parsec_data_t key from the coordinates already reduced modulo the k-cycle: data_of(m,n)->key != data_key(m,n) beyond the first cycle", RX_NO_DKEY },
+    { "C20-vector-rowcol-local-count", "parsec_vector_two_dim_cyclic_init counts ROW/COL local segments on the ranks with rrank==0 / crank==0 (lcm=Q / P) while vector_twoDBC_rank_of places them on rr=m%P,cr=0 / rr=0,cr=m%Q: nb_local_tiles (and data_map) are wrong when P*Q>1", RX_NO_DATA },
+    { "C20-sym-offset-assert", "sym_twoDBC_{rank_of,data_of,vpid_of} add the submatrix offset before assert(m < mt) / assert(n < nt): views with i>=mb or j>=nb abort on their last tile rows/columns in assertion-enabled builds", RX_SYM_CLIP },
+    { "C20-vector-diag-drank", "parsec_vector_two_dim_cyclic_init(DIAG) looks for the rank's first diagonal segment with `while (drank % Q != 0) drank += Q;` (Q for P in the condition): on P != Q grids the loop never terminates when (crank-rrank) % Q != 0, and otherwise yields a wrong nb_local_tiles", RX_NO_DATA },
+};
+#define NFIND 4
+/* the input class of C20-vector-diag-init-hang, computed from the parameters only */
+static int diag_hang_class(int P, int Q)
+{
+    int a = P, b = Q; while (b) { int t = b; b = a % b; a = t; }
+    for (int r = 0; r < P * Q; r++) { int pmq = (r % Q) - (r / Q); if (pmq % a == 0 && pmq % Q != 0) return 1; }
+    return 0;
+}
+static int g_known[NFIND]; static long g_known_hits[NFIND];
+static int rc_is_hang(const char *err) { return strstr(err, "did not return") != NULL; }
+static int classify(const case_t *c, const char *err)
+{
+    if (c->kind == K_2DBC && (c->kp > 1 || c->kq > 1) && !strncmp(err, "data_of(", 8) && strstr(err, " carries key ")) return 0;
+    if (c->kind == K_VEC && c->dist == 2 && c->P != c->Q && (rc_is_hang(err) || strstr(err, "nb_local_tiles") || strstr(err, "outside the local allocation") ||
+        strstr(err, "overlap in local storage") || strstr(err, "assertion `pos <= matrix->nb_local_tiles'") || !strncmp(err, "real code died", 14))) return 3;
+    if (c->kind == K_VEC && c->dist != 2 && c->P * c->Q > 1 &&
+        (strstr(err, "nb_local_tiles") || strstr(err, "outside the local allocation") || strstr(err, "overlap in local storage") || strstr(err, "assertion `pos <= matrix->nb_local_tiles'") || !strncmp(err, "real code died", 14))) return 1;
+    if (c->kind == K_SYM && (c->i >= c->mb || c->j >= c->nb) && strstr(err, "failed in sym_twoDBC_") &&
+        (strstr(err, "assertion `m < dc->super.mt'") || strstr(err, "assertion `n < dc->super.nt'"))) return 2;
+    return -1;
 }
 
 /* ------------------------------------------------------------------ enumeration */
@@ -334,13 +388,45 @@ static void do_case(const case_t *c)
     if (g_stop) return;
     if ((g_idx++ % W) != w_id) return;
     if (sx_deadline > 0 && (ws.cases & 1023) == 0 && sx_now() > sx_deadline) { ws.cut = 1; g_stop = 1; return; }
-    static char sig[8192], err[SX_ERRLEN], cs[600]; int nt = 0;
-    int rc = run_case(c, sig, sizeof(sig), &nt, err);
+    static char sig[8192], err[SX_ERRLEN], err2[SX_ERRLEN], cs[600]; int nt = 0;
+    int relax = 0;
+    /* vector on more than one rank: both listed findings make nb_local_tiles (hence data_map and the allocation) wrong, so data_of
+     * would write outside data_map; when the finding is listed, look first, and keep checking what does not depend on the count */
+    if (c->kind == K_VEC && c->P * c->Q > 1 && (c->dist != 2 || c->P != c->Q) && g_known[c->dist == 2 ? 3 : 1]) {
+        int f = c->dist == 2 ? 3 : 1, skip = 0;
+        if (f == 3 && diag_hang_class(c->P, c->Q)) {          /* confirm the hang once per grid and worker, then skip the grid: nothing can be built */
+            static signed char hangs[MAXR + 1][MAXR + 1];
+            if (!hangs[c->P][c->Q]) { int rc0 = run_case(c, 0, sig, sizeof(sig), &nt, err); hangs[c->P][c->Q] = (rc0 == 4) ? 1 : -1; }
+            if (hangs[c->P][c->Q] == 1) { g_known_hits[3]++; sx_known_finding("id=%s %s", findings[3].id, findings[3].text); return; }
+            skip = 1;                                          /* does not hang (repaired tree): ordinary case */
+        }
+        if (!skip && !run_case(c, RX_NO_DATA, sig, sizeof(sig), &nt, err)) {
+            static built_t pb; g_nbvp_override = c->nbvp; int bad = 0;
+            if (!build(c, &pb, err)) {
+                int cnt[MAXR] = { 0 };
+                for (int m = 0; m < pb.mt; m++) cnt[pb.v[0].dc->rank_of(pb.v[0].dc, m, 0)]++;
+                for (int r = 0; r < pb.nodes; r++) if (pb.full ? cnt[r] != pb.v[r].nb_local : cnt[r] > pb.v[r].nb_local) bad = 1;
+                teardown(c, &pb);
+            }
+            g_nbvp_override = 0;
+            if (bad) { relax = RX_NO_DATA; g_known_hits[f]++; sx_known_finding("id=%s %s", findings[f].id, findings[f].text); }
+        }
+    }
+    int rc = run_case(c, relax, sig, sizeof(sig), &nt, err);
+    if (rc && !relax) {
+        int f = classify(c, err);
+        if (f >= 0 && findings[f].relax != RX_NO_DATA && findings[f].relax && g_known[f]) {
+            int rc2 = run_case(c, findings[f].relax, sig, sizeof(sig), &nt, err2);
+            if (!rc2) { rc = 0; g_known_hits[f]++; sx_known_finding("id=%s %s", findings[f].id, findings[f].text); }
+            else snprintf(err, SX_ERRLEN, "%s", err2), rc = rc2;       /* something else is wrong as well: that is the violation */
+        }
+    }
     ws.cases++;
     if (rc) {
         case_str(c, cs, sizeof(cs)); char sc[96]; snprintf(sc, sizeof(sc), "%s.w%d", g_scen, w_id);
         sx_violation(sc, cs, err); ws.violations++;
         if (rc == 3 || ws.violations >= 3) g_stop = 1;      /* after a crash the heap cannot be trusted */
+        if (rc == 4 && ws.violations >= 2) g_stop = 1;
         return;
     }
     ws.nontrivial += nt;
@@ -349,10 +435,18 @@ static void do_case(const case_t *c)
     }
 }
 
-/* (offset, size) choices of one dimension for the stated box: offset in {0,1,tile}, size in {rest, 1} */
-static int dim_subs(int tile, int len, int sub[][2])
+/* (offset, size) choices of one dimension.
+ * mode 1 (the stated box): offset in {0,1,tile}, size in {rest, 1}   (<= 6 choices)
+ * mode 0 (quick)         : (0,rest), (tile,rest), (1,1)              (<= 3 choices) */
+static int dim_subs(int tile, int len, int mode, int sub[][2])
 {
     int k = 0, offs[3] = { 0, 1, tile };
+    if (!mode) {
+        sub[k][0] = 0; sub[k][1] = len; k++;
+        if (tile < len) { sub[k][0] = tile; sub[k][1] = len - tile; k++; }
+        if (len > 1) { sub[k][0] = 1; sub[k][1] = 1; k++; }
+        return k;
+    }
     for (int a = 0; a < 3; a++) {
         int o = offs[a]; if (o >= len) continue;
         int dup = 0; for (int q = 0; q < a; q++) if (offs[q] == o) dup = 1;
@@ -362,14 +456,14 @@ static int dim_subs(int tile, int len, int sub[][2])
     }
     return k;
 }
-typedef struct { int maxlen, maxnodes, maxtile, maxk; } bound_t;
+typedef struct { int maxlen, maxnodes, maxtile, maxk, submode, vp_all_subs; } bound_t;
 
 static void enum_2dbc(int kind, bound_t B, const int *nbvps, int nnbvp)
 {
     case_t c; memset(&c, 0, sizeof(c)); c.kind = kind;
     for (c.mb = 1; c.mb <= B.maxtile; c.mb++) for (c.nb = 1; c.nb <= B.maxtile; c.nb++)
     for (c.lm = 1; c.lm <= B.maxlen; c.lm++) for (c.ln = 1; c.ln <= B.maxlen; c.ln++) {
-        int rs[6][2], cs[6][2], nr = dim_subs(c.mb, c.lm, rs), nc = dim_subs(c.nb, c.ln, cs);
+        int rs[6][2], cs[6][2], nr = dim_subs(c.mb, c.lm, B.submode, rs), nc = dim_subs(c.nb, c.ln, B.submode, cs);
         c.mty = (c.lm + c.ln) % 3;
         for (int nodes = 1; nodes <= B.maxnodes; nodes++) for (c.P = 1; c.P <= nodes; c.P++) { if (nodes % c.P) continue; c.Q = nodes / c.P;
         for (c.kp = 1; c.kp <= B.maxk; c.kp++) for (c.kq = 1; c.kq <= B.maxk; c.kq++)
@@ -377,7 +471,7 @@ static void enum_2dbc(int kind, bound_t B, const int *nbvps, int nnbvp)
         for (int a = 0; a < nr; a++) for (int d = 0; d < nc; d++) {
             c.i = rs[a][0]; c.m = rs[a][1]; c.j = cs[d][0]; c.n = cs[d][1];
             for (int v = 0; v < nnbvp; v++) { c.nbvp = nbvps[v];
-                if (c.nbvp > 1 && (a > 2 || d > 2)) continue;                     /* nb_vp > 1: the full matrix and the first offsets only */
+                if (c.nbvp > 1 && !B.vp_all_subs && (a || d)) continue;           /* nb_vp > 1: the full matrix only */
                 c.sub = 0; do_case(&c);
                 if ((c.i || c.j) && c.i % c.mb == 0 && c.j % c.nb == 0) { c.sub = 1; do_case(&c); }
             }
@@ -390,7 +484,7 @@ static void enum_sym(bound_t B, const int *nbvps, int nnbvp)
     case_t c; memset(&c, 0, sizeof(c)); c.kind = K_SYM; c.kp = c.kq = 1;
     for (c.mb = 1; c.mb <= B.maxtile; c.mb++) for (c.lm = 1; c.lm <= B.maxlen; c.lm++) {
         c.nb = c.mb; c.ln = c.lm; c.mty = c.lm % 3;
-        int rs[6][2], nr = dim_subs(c.mb, c.lm, rs);
+        int rs[6][2], nr = dim_subs(c.mb, c.lm, 1, rs);
         for (int nodes = 1; nodes <= B.maxnodes; nodes++) for (c.P = 1; c.P <= nodes; c.P++) { if (nodes % c.P) continue; c.Q = nodes / c.P;
         for (c.uplo = 0; c.uplo < 2; c.uplo++) for (int a = 0; a < nr; a++) for (int v = 0; v < nnbvp; v++) {
             c.i = c.j = rs[a][0]; c.m = c.n = rs[a][1]; c.nbvp = nbvps[v];
@@ -415,12 +509,14 @@ static void enum_band(int kind, bound_t B, const int *nbvps, int nnbvp)
         for (c.bs = 1; c.bs <= 3; c.bs++) for (int v = 0; v < nnbvp; v++) { c.nbvp = nbvps[v]; do_case(&c); if (g_stop) return; } } }
     }
 }
-static void enum_tab(int maxtiles, int maxnodes)
+/* every table over <= maxtiles tiles and <= maxnodes ranks; full=1: every tile-size variant, vpid table and submatrix combined */
+static void enum_tab(int maxtiles, int maxnodes, int full)
 {
     case_t c; memset(&c, 0, sizeof(c)); c.kind = K_TAB; c.P = c.Q = c.kp = c.kq = 1;
     for (int lmt = 1; lmt <= maxtiles; lmt++) for (int lnt = 1; lmt * lnt <= maxtiles; lnt++)
     for (c.mb = 1; c.mb <= 2; c.mb++) for (c.nb = 1; c.nb <= 2; c.nb++)
     for (int pm = 0; pm < c.mb; pm++) for (int pn = 0; pn < c.nb; pn++) {                 /* partial last tile row / column */
+        if (!full && (c.mb != c.nb || pm != pn)) continue;
         c.lm = lmt * c.mb - pm; c.ln = lnt * c.nb - pn; c.mty = (lmt + lnt) % 3;
         int nt = lmt * lnt;
         for (c.nodes = 1; c.nodes <= maxnodes; c.nodes++) { int ntab = 1; for (int k = 0; k < nt; k++) ntab *= c.nodes;
@@ -428,6 +524,7 @@ static void enum_tab(int maxtiles, int maxnodes)
         for (c.nbvp = 1; c.nbvp <= 2; c.nbvp++) { int nvt = 1; for (int k = 0; k < nt; k++) nvt *= c.nbvp;
         for (c.vptab = 0; c.vptab < nvt; c.vptab++) for (c.user = 0; c.user < 2; c.user++)
         for (int a = 0; a < lmt; a++) for (int e = a + 1; e <= lmt; e++) for (int d = 0; d < lnt; d++) for (int f = d + 1; f <= lnt; f++) {   /* all tile-aligned submatrices */
+            if (!full && c.nbvp > 1 && !(a == 0 && e == lmt && d == 0 && f == lnt)) continue;   /* quick: vpid tables on the full matrix only */
             c.i = a * c.mb; c.m = (e * c.mb > c.lm ? c.lm : e * c.mb) - c.i; c.j = d * c.nb; c.n = (f * c.nb > c.ln ? c.ln : f * c.nb) - c.j;
             c.sub = 0; do_case(&c);
             if (c.i || c.j) { c.sub = 1; do_case(&c); }
@@ -439,7 +536,7 @@ static void enum_vec(bound_t B, const int *nbvps, int nnbvp)
 {
     case_t c; memset(&c, 0, sizeof(c)); c.kind = K_VEC; c.nb = 1; c.ln = 1; c.n = 1; c.kp = c.kq = 1;
     for (c.dist = 0; c.dist < 3; c.dist++) for (c.mb = 1; c.mb <= B.maxtile; c.mb++) for (c.lm = 1; c.lm <= B.maxlen; c.lm++) {
-        int rs[6][2], nr = dim_subs(c.mb, c.lm, rs); c.mty = c.lm % 3;
+        int rs[6][2], nr = dim_subs(c.mb, c.lm, 1, rs); c.mty = c.lm % 3;
         for (int nodes = 1; nodes <= B.maxnodes; nodes++) for (c.P = 1; c.P <= nodes; c.P++) { if (nodes % c.P) continue; c.Q = nodes / c.P;
         for (int a = 0; a < nr; a++) for (int v = 0; v < nnbvp; v++) { c.i = rs[a][0]; c.m = rs[a][1]; c.nbvp = nbvps[v]; do_case(&c); if (g_stop) return; } }
     }
@@ -447,13 +544,13 @@ static void enum_vec(bound_t B, const int *nbvps, int nnbvp)
 
 /* ------------------------------------------------------------------ scenario driver (fork W workers, merge) */
 typedef void (*enum_fn)(void);
-static bound_t gB; static const int *g_nbvps; static int g_nnbvp; static int g_kind; static int g_tabtiles, g_tabnodes;
+static bound_t gB; static const int *g_nbvps; static int g_nnbvp; static int g_tabtiles, g_tabnodes, g_tabfull;
 static void e_2dbc(void) { enum_2dbc(K_2DBC, gB, g_nbvps, g_nnbvp); }
 static void e_kview(void) { enum_2dbc(K_KVIEW, gB, g_nbvps, g_nnbvp); }
 static void e_sym(void) { enum_sym(gB, g_nbvps, g_nnbvp); }
 static void e_band(void) { enum_band(K_BAND, gB, g_nbvps, g_nnbvp); }
 static void e_sband(void) { enum_band(K_SYMBAND, gB, g_nbvps, g_nnbvp); }
-static void e_tab(void) { enum_tab(g_tabtiles, g_tabnodes); }
+static void e_tab(void) { enum_tab(g_tabtiles, g_tabnodes, g_tabfull); }
 static void e_vec(void) { enum_vec(gB, g_nbvps, g_nnbvp); }
 
 static void install_handlers(void)
@@ -461,6 +558,8 @@ static void install_handlers(void)
     struct sigaction sa; memset(&sa, 0, sizeof(sa)); sa.sa_handler = on_signal; sa.sa_flags = SA_NODEFER;
     int sigs[] = { SIGSEGV, SIGBUS, SIGFPE, SIGABRT, SIGILL };
     for (unsigned k = 0; k < sizeof(sigs) / sizeof(sigs[0]); k++) sigaction(sigs[k], &sa, NULL);
+    sa.sa_handler = on_tick; sa.sa_flags = SA_RESTART; sigaction(SIGVTALRM, &sa, NULL);
+    struct itimerval it = { { 0, 100000 }, { 0, 100000 } }; setitimer(ITIMER_VIRTUAL, &it, NULL);
 }
 static parsec_context_t *g_ctx;
 static void rt_up(void) { int ac = 1; char *av[] = { "c20", NULL }, **pav = av; g_ctx = parsec_init(1, &ac, &pav); if (!g_ctx) { fprintf(stderr, "parsec_init failed\n"); _exit(2); } install_handlers(); }
@@ -468,10 +567,15 @@ static void rt_up(void) { int ac = 1; char *av[] = { "c20", NULL }, **pav = av; 
 static int full_write(int fd, const void *p, size_t n) { const char *s = p; while (n) { ssize_t k = write(fd, s, n); if (k <= 0) { if (errno == EINTR) continue; return -1; } s += k; n -= (size_t)k; } return 0; }
 static int full_read(int fd, void *p, size_t n) { char *s = p; while (n) { ssize_t k = read(fd, s, n); if (k <= 0) { if (k < 0 && errno == EINTR) continue; return -1; } s += k; n -= (size_t)k; } return 0; }
 
+#define NHDR 12
 static void scenario(const char *name, enum_fn fn, int workers, const char *bounds_json)
 {
     double t0 = sx_now(); snprintf(g_scen, sizeof(g_scen), "%s", name);
     int fds[64][2]; pid_t pids[64]; if (workers > 64) workers = 64;
+    if (sx_deadline > 0 && sx_now() > sx_deadline) {           /* not started: reported as not exhaustive, nothing claimed */
+        char extra[400]; snprintf(extra, sizeof(extra), "\"skipped\":\"deadline reached before this leg started\",%s", bounds_json);
+        sx_report(name, 0, 0, 0, 0, 0, 0, 0, 0.0, extra, NULL, 0); return;
+    }
     fflush(stdout); fflush(stderr); if (sx_json) fflush(sx_json);
     for (int w = 0; w < workers; w++) {
         if (pipe(fds[w])) { perror("pipe"); exit(2); }
@@ -482,31 +586,35 @@ static void scenario(const char *name, enum_fn fn, int workers, const char *boun
             W = workers; w_id = w; g_idx = 0; memset(&ws, 0, sizeof(ws)); memset(&g_out, 0, sizeof(g_out)); g_nsamples = 0; g_stop = 0; n_views = n_calls = 0;
             rt_up();
             fn();
-            long hdr[8] = { ws.cases, ws.nontrivial, ws.violations, ws.cut || (g_stop && !ws.violations), n_views, n_calls, (long)g_out.n, g_nsamples };
+            long hdr[NHDR] = { ws.cases, ws.nontrivial, ws.violations, ws.cut || (g_stop && !ws.violations), n_views, n_calls, (long)g_out.n, g_nsamples, g_known_hits[0], g_known_hits[1], g_known_hits[2], g_known_hits[3] };
             full_write(fds[w][1], hdr, sizeof(hdr));
             for (size_t k = 0; k < g_out.cap; k++) if (g_out.v[k].a || g_out.v[k].b) full_write(fds[w][1], &g_out.v[k], sizeof(sx_h128_t));
             full_write(fds[w][1], g_samples, sizeof(g_samples));
+            fflush(stdout);
             _exit(0);                                        /* no parsec_fini: the process image is discarded */
         }
         close(fds[w][1]);
     }
-    long cases = 0, nontriv = 0, viol = 0, cut = 0, views = 0, calls = 0; int broken = 0; sx_set_t all = { 0 };
-    char samples[3][700]; int ns = 0;
+    long cases = 0, nontriv = 0, viol = 0, cut = 0, views = 0, calls = 0, kh[NFIND] = { 0 }; int broken = 0; sx_set_t all = { 0 };
+    static char samples[3][700]; int ns = 0;
     for (int w = 0; w < workers; w++) {
-        long hdr[8];
+        long hdr[NHDR];
         if (full_read(fds[w][0], hdr, sizeof(hdr))) { broken++; fprintf(stderr, "c20: worker %d of scenario %s died without a result\n", w, name); }
         else {
             cases += hdr[0]; nontriv += hdr[1]; viol += hdr[2]; cut |= hdr[3]; views += hdr[4]; calls += hdr[5];
+            for (int f = 0; f < NFIND; f++) kh[f] += hdr[8 + f];
             for (long k = 0; k < hdr[6]; k++) { sx_h128_t h; if (full_read(fds[w][0], &h, sizeof(h))) { broken++; break; } sx_set_add(&all, h); }
-            char sm[3][700]; if (!full_read(fds[w][0], sm, sizeof(sm)) && w == 0) { ns = (int)hdr[7]; memcpy(samples, sm, sizeof(sm)); }
+            static char sm[3][700]; if (!full_read(fds[w][0], sm, sizeof(sm)) && w == 0) { ns = (int)hdr[7]; memcpy(samples, sm, sizeof(sm)); }
         }
         close(fds[w][0]);
         int st; waitpid(pids[w], &st, 0);
         if (!WIFEXITED(st) || WEXITSTATUS(st) != 0) { broken++; fprintf(stderr, "c20: worker %d of scenario %s ended abnormally (status 0x%x)\n", w, name, st); }
     }
     sx_total_violations += (int)viol; sx_total_broken += broken;
-    const char *sp[3] = { samples[0], samples[1], samples[2] }; char extra[512];
-    snprintf(extra, sizeof(extra), "\"descriptor_views_built\":%ld,\"accessor_calls_checked\":%ld,\"workers\":%d,\"broken\":%d,%s", views, calls, workers, broken, bounds_json);
+    const char *sp[3] = { samples[0], samples[1], samples[2] }; char extra[900];
+    snprintf(extra, sizeof(extra), "\"descriptor_views_built\":%ld,\"accessor_calls_checked\":%ld,\"workers\":%d,\"broken\":%d,"
+             "\"cases_attributed_to_known_findings\":{\"%s\":%ld,\"%s\":%ld,\"%s\":%ld,\"%s\":%ld},%s", views, calls, workers, broken,
+             findings[0].id, kh[0], findings[1].id, kh[1], findings[2].id, kh[2], findings[3].id, kh[3], bounds_json);
     sx_report(name, cases, calls, views, nontriv, (long)all.n, !cut && !viol && !broken, (int)viol, sx_now() - t0, extra, sp, ns);
     free(all.v);
 }
@@ -516,10 +624,10 @@ static int replay_one(const char *path)
     char sc[128], h[4096]; case_t c;
     if (sx_read_replay(path, sc, sizeof(sc), h, sizeof(h)) || case_parse(h, &c)) { fprintf(stderr, "cannot parse replay file %s\n", path); return 2; }
     rt_up();
-    char cs[600], sig[8192], err[SX_ERRLEN]; int nt; case_str(&c, cs, sizeof(cs));
+    static char cs[600], sig[8192], err[SX_ERRLEN]; int nt; case_str(&c, cs, sizeof(cs));
     printf("replay: %s\n", cs);
     g_verbose = 1;
-    int rc = run_case(&c, sig, sizeof(sig), &nt, err);
+    int rc = run_case(&c, 0, sig, sizeof(sig), &nt, err);
     if (rc) { printf("  -> %s\nVIOLATION property=C20 replay=%s\n", err, path); return 1; }
     printf("  outcome %s\nreplay: case passes\n", sig);
     return 0;
@@ -529,32 +637,51 @@ int main(int argc, char **argv)
 {
     sx_init(argc, argv, "C20");
     int workers = 6; const char *only = NULL;
-    for (int a = 1; a < argc; a++) { if (!strcmp(argv[a], "--workers") && a + 1 < argc) workers = atoi(argv[++a]); else if (!strcmp(argv[a], "--only") && a + 1 < argc) only = argv[++a]; }
+    for (int a = 1; a < argc; a++) {
+        if (!strcmp(argv[a], "--workers") && a + 1 < argc) workers = atoi(argv[++a]);
+        else if (!strcmp(argv[a], "--only") && a + 1 < argc) only = argv[++a];
+        else if (!strcmp(argv[a], "--known") && a + 1 < argc) { const char *l = argv[++a]; for (int f = 0; f < NFIND; f++) if (strstr(l, findings[f].id)) g_known[f] = 1; }
+    }
     if (sx_replay_file) return replay_one(sx_replay_file);
-    static const int vp1[] = { 1 }, vps[] = { 1, 2, 3, 4, 6 };
+    static const int vp1[] = { 1 }, vpq[] = { 1, 4, 6 }, vps[] = { 1, 2, 3, 4, 6 };
     int T = sx_tier_thorough;
-#define RUN(nm, fn, bj) do { if (!only || !strcmp(only, nm)) scenario(nm, fn, workers, bj); } while (0)
-    /* tabular: the whole stated box in both tiers */
-    g_tabtiles = 4; g_tabnodes = 3; RUN("tabular_le4tiles_le3ranks", e_tab, "\"bounds\":\"all tables over <=4 tiles x <=3 ranks, mb,nb in 1..2, all tile-aligned submatrices, nb_vp in 1..2 with all vpid tables, runtime-allocated and user tables\"");
-    g_nbvps = vps; g_nnbvp = 5;
-    gB = (bound_t){ T ? 20 : 12, T ? 16 : 6, 3, 1 };
-    RUN("vector", e_vec, T ? "\"bounds\":\"row/col/diag, mb 1..3, lm 1..20, P*Q<=16, offsets {0,1,mb}, nb_vp {1,2,3,4,6}\"" : "\"bounds\":\"row/col/diag, mb 1..3, lm 1..12, P*Q<=6, offsets {0,1,mb}, nb_vp {1,2,3,4,6}\"");
-    gB = (bound_t){ T ? 10 : 7, T ? 16 : 6, 3, 1 };
-    RUN("sym", e_sym, T ? "\"bounds\":\"upper/lower, mb=nb 1..3, lm=ln 1..10, P*Q<=16, diagonal sub-blocks, nb_vp {1,2,3,4,6}\"" : "\"bounds\":\"upper/lower, mb=nb 1..3, lm=ln 1..7, P*Q<=6, diagonal sub-blocks, nb_vp {1,2,3,4,6}\"");
-    g_nbvps = T ? vps : vp1; g_nnbvp = T ? 5 : 1;
-    gB = (bound_t){ T ? 8 : 6, T ? 8 : 6, 2, 2 };
-    RUN("band", e_band, T ? "\"bounds\":\"mb,nb 1..2, lm,ln 1..8, P*Q<=8, kp,kq 1..2, every band grid, band k 1..2, band_size 1..3, nb_vp {1,2,3,4,6}\"" : "\"bounds\":\"mb,nb 1..2, lm,ln 1..6, P*Q<=6, kp,kq 1..2, every band grid, band k 1..2, band_size 1..3\"");
-    gB = (bound_t){ T ? 10 : 7, T ? 12 : 6, 2, 2 };
-    RUN("symband", e_sband, T ? "\"bounds\":\"upper/lower, mb=nb 1..2, lm=ln 1..10, P*Q<=12, every band grid, band k 1..2, band_size 1..3, nb_vp {1,2,3,4,6}\"" : "\"bounds\":\"upper/lower, mb=nb 1..2, lm=ln 1..7, P*Q<=6, every band grid, band k 1..2, band_size 1..3\"");
-    g_nbvps = vps; g_nnbvp = 5;
-    gB = (bound_t){ 7, 6, 3, 3 };
-    RUN("2dbc_lm7_pq6", e_2dbc, "\"bounds\":\"mb,nb 1..3, lm,ln 1..7, offsets {0,1,tile} x sizes {rest,1}, P*Q<=6, kp,kq 1..3, ip,jq 0..1, nb_vp {1,2,3,4,6}\"");
-    RUN("kview_lm7_pq6", e_kview, "\"bounds\":\"mb,nb 1..3, lm,ln 1..7, offsets {0,1,tile} x sizes {rest,1}, P*Q<=6, view kp,kq 1..3, ip,jq 0..1, nb_vp {1,2,3,4,6}\"");
-    if (T) {
+#define RUN(nm, fn, bj) do { if (!only || !strcmp(only, nm)) scenario(nm, fn, workers, "\"bounds\":\"" bj "\""); } while (0)
+    if (!T) {
+        g_nbvps = vps; g_nnbvp = 5;
+        gB = (bound_t){ 12, 6, 3, 1, 1, 1 };
+        RUN("vector", e_vec, "row/col/diag, mb 1..3, lm 1..12, P*Q<=6, offsets {0,1,mb} x sizes {rest,1}, nb_vp {1,2,3,4,6}");
+        gB = (bound_t){ 7, 6, 3, 1, 1, 1 };
+        RUN("sym", e_sym, "upper/lower, mb=nb 1..3, lm=ln 1..7, P*Q<=6, diagonal sub-blocks (offset {0,1,mb} x size {rest,1}), nb_vp {1,2,3,4,6}");
+        g_tabtiles = 4; g_tabnodes = 3; g_tabfull = 0;
+        RUN("tabular_le4tiles_le3ranks", e_tab, "all tables over <=4 tiles x <=3 ranks, square tiles mb=nb in 1..2 (full / partial last tile), all tile-aligned submatrices, runtime-allocated and user tables, nb_vp 2 with all vpid tables on the full matrix");
         g_nbvps = vp1; g_nnbvp = 1;
-        gB = (bound_t){ 10, 16, 3, 3 };
-        RUN("2dbc_lm10_pq16", e_2dbc, "\"bounds\":\"mb,nb 1..3, lm,ln 1..10, offsets {0,1,tile} x sizes {rest,1}, P*Q<=16, kp,kq 1..3, ip,jq 0..1, nb_vp 1\"");
-        RUN("kview_lm10_pq16", e_kview, "\"bounds\":\"mb,nb 1..3, lm,ln 1..10, offsets {0,1,tile} x sizes {rest,1}, P*Q<=16, view kp,kq 1..3, ip,jq 0..1, nb_vp 1\"");
+        gB = (bound_t){ 5, 6, 2, 2, 0, 0 };
+        RUN("band", e_band, "mb,nb 1..2, lm,ln 1..5, P*Q<=6, kp,kq 1..2, every band grid, band k 1..2, band_size 1..3");
+        gB = (bound_t){ 7, 6, 2, 2, 0, 0 };
+        RUN("symband", e_sband, "upper/lower, mb=nb 1..2, lm=ln 1..7, P*Q<=6, every band grid, band k 1..2, band_size 1..3");
+        g_nbvps = vpq; g_nnbvp = 3;
+        gB = (bound_t){ 5, 6, 2, 3, 0, 0 };
+        RUN("2dbc_lm5_pq6", e_2dbc, "mb,nb 1..2, lm,ln 1..5, submatrix {(0,rest),(tile,rest),(1,1)}^2 by constructor and by parsec_tiled_matrix_submatrix, P*Q<=6, kp,kq 1..3, ip,jq 0..1, nb_vp {1,4,6} (>1: full matrix)");
+        RUN("kview_lm5_pq6", e_kview, "mb,nb 1..2, lm,ln 1..5, submatrix {(0,rest),(tile,rest),(1,1)}^2 by constructor and by parsec_tiled_matrix_submatrix, P*Q<=6, view kp,kq 1..3, ip,jq 0..1, nb_vp {1,4,6} (>1: full matrix)");
+    } else {
+        g_nbvps = vps; g_nnbvp = 5;
+        gB = (bound_t){ 20, 16, 3, 1, 1, 1 };
+        RUN("vector", e_vec, "row/col/diag, mb 1..3, lm 1..20, P*Q<=16, offsets {0,1,mb} x sizes {rest,1}, nb_vp {1,2,3,4,6}");
+        gB = (bound_t){ 10, 16, 3, 1, 1, 1 };
+        RUN("sym", e_sym, "upper/lower, mb=nb 1..3, lm=ln 1..10, P*Q<=16, diagonal sub-blocks (offset {0,1,mb} x size {rest,1}), nb_vp {1,2,3,4,6}");
+        g_tabtiles = 4; g_tabnodes = 3; g_tabfull = 1;
+        RUN("tabular_le4tiles_le3ranks", e_tab, "all tables over <=4 tiles x <=3 ranks, mb,nb in 1..2 with full / partial last tiles, all tile-aligned submatrices, nb_vp in 1..2 with all vpid tables, runtime-allocated and user tables");
+        gB = (bound_t){ 7, 8, 2, 2, 0, 0 };
+        RUN("band", e_band, "mb,nb 1..2, lm,ln 1..7, P*Q<=8, kp,kq 1..2, every band grid, band k 1..2, band_size 1..3, nb_vp {1,2,3,4,6}");
+        gB = (bound_t){ 10, 12, 2, 2, 0, 0 };
+        RUN("symband", e_sband, "upper/lower, mb=nb 1..2, lm=ln 1..10, P*Q<=12, every band grid, band k 1..2, band_size 1..3, nb_vp {1,2,3,4,6}");
+        gB = (bound_t){ 7, 6, 3, 3, 1, 0 };
+        RUN("2dbc_lm7_pq6", e_2dbc, "mb,nb 1..3, lm,ln 1..7, submatrix (offset {0,1,tile} x size {rest,1})^2 by constructor and by parsec_tiled_matrix_submatrix, P*Q<=6, kp,kq 1..3, ip,jq 0..1, nb_vp {1,2,3,4,6} (>1: full matrix)");
+        RUN("kview_lm7_pq6", e_kview, "mb,nb 1..3, lm,ln 1..7, submatrix (offset {0,1,tile} x size {rest,1})^2 by constructor and by parsec_tiled_matrix_submatrix, P*Q<=6, view kp,kq 1..3, ip,jq 0..1, nb_vp {1,2,3,4,6} (>1: full matrix)");
+        g_nbvps = vp1; g_nnbvp = 1;
+        gB = (bound_t){ 10, 16, 3, 3, 0, 0 };
+        RUN("2dbc_lm10_pq16", e_2dbc, "mb,nb 1..3, lm,ln 1..10, submatrix {(0,rest),(tile,rest),(1,1)}^2, P*Q<=16, kp,kq 1..3, ip,jq 0..1, nb_vp 1");
+        RUN("kview_lm10_pq16", e_kview, "mb,nb 1..3, lm,ln 1..10, submatrix {(0,rest),(tile,rest),(1,1)}^2, P*Q<=16, view kp,kq 1..3, ip,jq 0..1, nb_vp 1");
     }
     return sx_finish();
 }
